@@ -104,6 +104,10 @@ func (p SignatureProof) AddSignature(sig []byte, key gcrypto.PubKey) error {
 
 	gotSigP1 := new(blst.P1Affine)
 	gotSigP1 = gotSigP1.Uncompress(sig)
+	if gotSigP1 == nil {
+		// The bytes are not a compressed point at all.
+		return errors.New("signature could not be decompressed")
+	}
 
 	// The key is part of the tree.
 	// Do we already have the signature?
@@ -251,7 +255,8 @@ func (p SignatureProof) MergeSparse(s gcrypto.SparseSignatureProof) gcrypto.Sign
 			// We did have the signature; does it match?
 			sig := new(blst.P1Affine)
 			sig = sig.Uncompress(ss.Sig)
-			if !haveSig.Equals(sig) {
+			if sig == nil || !haveSig.Equals(sig) {
+				// Undecodable bytes cannot be the signature we already verified.
 				res.AllValidSignatures = false
 			}
 		}
